@@ -17,6 +17,9 @@ MODELS = {
     "rware-awk-T2@scenarios": ("rware-awk-T2", "robot_warehouse"),
     # two LOADED agents within Manhattan distance 2 of each other, every position x direction pair
     "rware-tiny-T3@pairs": ("rware-tiny-T3", "robot_warehouse"),
+    # LBF: reset states of 6 keys with one food item already marked eaten (so that agents can walk onto its cell)
+    "lbf-6x2x2-grid-T3@eaten": ("lbf-6x2x2-grid-T3", "lbf"),
+    "lbf-6x2x2-vec-T3@eaten": ("lbf-6x2x2-vec-T3", "lbf"),
 }
 
 
@@ -33,7 +36,7 @@ def tasks(pid: str, tier: str, seed: int, families=None) -> List[Any]:
             continue
         if only_m and name not in only_m.split(","):
             continue
-        if tier == "quick" and name == "rware-awk-T2@scenarios":
+        if tier == "quick" and name in ("rware-awk-T2@scenarios", "lbf-6x2x2-vec-T3@eaten"):
             continue
         out.append(("mc.checks.scenarios", "explore", dict(pid=pid, model=name, tier=tier, seed=seed)))
     return out
@@ -46,6 +49,23 @@ def build_roots(env: Any, model: str, key_seed: int = 0):
 
     cfg_name, fam = MODELS[model]
     ref = importlib.import_module(f"mc.ref.{fam}")
+    if model.endswith("@eaten"):
+        import jax.numpy as jnp
+        import numpy as np
+
+        keys = list(range(6))
+        st, ts = jax.jit(jax.vmap(env.reset))(jnp.stack([jax.random.PRNGKey(k) for k in keys]))
+        st, ts = to_np(st), to_np(ts)
+        nf = np.asarray(st.food_items.eaten).shape[1]
+        parts, tparts, descs = [], [], []
+        for j in range(nf):
+            e = np.asarray(st.food_items.eaten).copy()
+            e[:, j] = True
+            parts.append(st.replace(food_items=st.food_items.replace(eaten=e)))
+            tparts.append(ts)
+            descs += [{"reset_key_seed": k, "injection": "eaten", "food_marked_eaten": j} for k in keys]
+        cat = lambda xs: jax.tree_util.tree_map(lambda *a: np.concatenate(a, axis=0), *xs)  # noqa: E731
+        return cat(parts), cat(tparts), descs, True
     s0, ts0 = jax.jit(env.reset)(jax.random.PRNGKey(key_seed))
     s0, ts0 = to_np(s0), to_np(ts0)
     if fam == "pac_man":
